@@ -14,7 +14,7 @@ ENGINES = {
     'sql':      dict(quick_n=800,  thorough_n=20000, search_n=8000),
     'iofault':  dict(quick_n=40,   thorough_n=400,   search_n=400),
     'share':    dict(quick_n=400,  thorough_n=5000,  search_n=5000),
-    'conc':     dict(quick_n=300,  thorough_n=3000,  search_n=3000, race=True),
+    'conc':     dict(quick_n=1000, thorough_n=6000,  search_n=6000, race=True),
 }
 
 STD = ['Go semantics of slices, maps, integer and IEEE-754 operations as modelled; behaviour of the Go standard library where it enters as a recorded oracle table']
